@@ -67,6 +67,7 @@ pub struct Consumed {
     pub end: End,
     pub read_calls: usize,
     pub short_reads: usize,
+    pub interrupted: usize,
     /// results of reads issued after the first end signal
     pub after_end: Vec<Result<usize, String>>,
     /// bytes handed out by reads issued after the first end signal
@@ -88,6 +89,7 @@ pub fn read_loop(
         end: End::Clean,
         read_calls: 0,
         short_reads: 0,
+        interrupted: 0,
         after_end: Vec::new(),
         after_end_bytes: Vec::new(),
     };
@@ -105,6 +107,11 @@ pub fn read_loop(
         }
         let res = reader.read(&mut buf[..sz]);
         out.read_calls += 1;
+        if matches!(&res, Err(e) if e.kind() == io::ErrorKind::Interrupted) && out.interrupted < 1000 {
+            // the std contract: a caller retries a read that was interrupted
+            out.interrupted += 1;
+            continue;
+        }
         if ended {
             match &res {
                 Ok(n) => {
@@ -163,6 +170,7 @@ pub fn consume(resp: Response, plan: &ReadPlan, extra_after_end: usize) -> Consu
             end: End::Clean,
             read_calls: 0,
             short_reads: 0,
+            interrupted: 0,
             after_end: vec![],
             after_end_bytes: vec![],
         },
@@ -171,6 +179,7 @@ pub fn consume(resp: Response, plan: &ReadPlan, extra_after_end: usize) -> Consu
             end: End::Error(e),
             read_calls: 0,
             short_reads: 0,
+            interrupted: 0,
             after_end: vec![],
             after_end_bytes: vec![],
         },
@@ -193,6 +202,7 @@ pub fn consume(resp: Response, plan: &ReadPlan, extra_after_end: usize) -> Consu
                     end: End::Error(format!("{e:?}")),
                     read_calls: 0,
                     short_reads: 0,
+            interrupted: 0,
                     after_end: vec![],
                     after_end_bytes: vec![],
                 },
@@ -209,6 +219,7 @@ pub fn consume(resp: Response, plan: &ReadPlan, extra_after_end: usize) -> Consu
                     end: End::Error(format!("{:?}: {}", e.kind(), e)),
                     read_calls: 0,
                     short_reads: 0,
+            interrupted: 0,
                     after_end: vec![],
                     after_end_bytes: vec![],
                 },
